@@ -353,16 +353,35 @@ def _pow_vclass(n):
     return "positive"
 
 
+def _aug(symbol):
+    """augmented assignment `r = x; r <op>= y`: the statement rebinds r to the result; x itself is an operand like any other"""
+    def f(L, t, a):
+        r = t[0]
+        if symbol == "+":
+            r += t[1]
+        elif symbol == "-":
+            r -= t[1]
+        elif symbol == "*":
+            r *= t[1]
+        elif symbol == "/":
+            r /= t[1]
+        else:
+            r @= t[1]
+        return r
+    return f
+
+
 _reg(Op("add", {
     "func": lambda L, t, a: L.sg.add(t[0], t[1]),
     "operator": lambda L, t, a: t[0] + t[1],
+    "operator_augmented": _aug("+"),
     "operator_ndarray_right": lambda L, t, a: t[0] + t[1].data,
 }, ref_bcast(lambda x, y: x + y), narg=2, vclasses=("normal", "negative", "large")))
 _reg(Op("add_scalar", {
     "right": lambda L, t, a: t[0] + _scalar(a),
     "left": lambda L, t, a: _scalar(a) + t[0],
 }, lambda xs, a: xs[0] + a["scalar"], vclasses=("normal", "negative")))
-_reg(Op("sub", {"operator": lambda L, t, a: t[0] - t[1]}, ref_bcast(lambda x, y: x - y), narg=2, vclasses=("normal", "negative")))
+_reg(Op("sub", {"operator": lambda L, t, a: t[0] - t[1], "operator_augmented": _aug("-")}, ref_bcast(lambda x, y: x - y), narg=2, vclasses=("normal", "negative")))
 _reg(Op("sub_scalar", {
     "right": lambda L, t, a: t[0] - _scalar(a),
     "left": lambda L, t, a: _scalar(a) - t[0],
@@ -370,12 +389,13 @@ _reg(Op("sub_scalar", {
 _reg(Op("mul", {
     "func": lambda L, t, a: L.sg.mul(t[0], t[1]),
     "operator": lambda L, t, a: t[0] * t[1],
+    "operator_augmented": _aug("*"),
 }, ref_bcast(lambda x, y: x * y), narg=2, vclasses=("normal", "negative", "large")))
 _reg(Op("mul_scalar", {
     "right": lambda L, t, a: t[0] * _scalar(a),
     "left": lambda L, t, a: _scalar(a) * t[0],
 }, lambda xs, a: xs[0] * a["scalar"], vclasses=("normal", "negative")))
-_reg(Op("div", {"operator": lambda L, t, a: t[0] / t[1]}, ref_bcast(lambda x, y: x / y), narg=2, mode="richardson",
+_reg(Op("div", {"operator": lambda L, t, a: t[0] / t[1], "operator_augmented": _aug("/")}, ref_bcast(lambda x, y: x / y), narg=2, mode="richardson",
         vclasses=(("normal", "pm_wellcond"), ("negative", "positive"))))
 _reg(Op("div_scalar", {
     "right": lambda L, t, a: t[0] / _scalar(a),
@@ -385,6 +405,7 @@ _reg(Op("div_scalar", {
 _reg(Op("matmul", {
     "func": lambda L, t, a: L.sg.matmul(t[0], t[1]),
     "operator": lambda L, t, a: t[0] @ t[1],
+    "operator_augmented": _aug("@"),
     "operator_ndarray_right": lambda L, t, a: t[0] @ t[1].data,
 }, ref_matmul, narg=2, documented=lambda a, s: len(s[0]) >= 2 and len(s[1]) >= 2))
 _reg(Op("addmm", {"func": lambda L, t, a: L.sg.addmm(t[0], t[1], t[2])}, ref_addmm, narg=3,
